@@ -264,6 +264,35 @@ def usp (gc : String) (t : Table) (svc : String) (ttl : Int) (sp : Nat) (now : I
   | .error e => (t, .err e)
   | .ok (t1, w1) => uspLoad gc t1 w1 svc ttl sp now
 
+/-- UpdateServiceGCSafePoint cut at its own SaveServiceGCSafePoint call (the only place where the handler
+    writes the record of the request): either the request is answered before that point, or it stands before
+    the write with the table as it is then, the minimum it computed and the record it is going to write. -/
+inductive SPre where
+  | fin (t : Table) (o : SOut)
+  | save (t2 : Table) (w2 : W) (min : Entry) (e : Entry)
+  deriving Repr
+
+def uspPre (gc : String) (t : Table) (svc : String) (ttl : Int) (sp : Nat) (now : Int) (failAt : Nat) : SPre :=
+  match uspRemove gc t svc ttl { failAt := failAt } with
+  | .error e => .fin t (.err e)
+  | .ok (t1, w1) =>
+    match loadMin gc now t1 w1 with
+    | (t2, _, .error e) => .fin t2 (.err e)
+    | (t2, w2, .ok min) =>
+      if ttl > 0 ∧ sp ≥ min.sp then
+        let e := newEntry svc ttl sp now
+        if svc = "" then .fin t2 (.err .emptyId)
+        else if svc = gc ∧ e.exp ≠ maxI64 then .fin t2 (.err .gcWorkerTtl)
+        else if !validId svc then .fin t2 (.err .invalidId)
+        else .save t2 w2 min e
+      else .fin t2 (.ok min.id (min.exp - now) min.sp)
+
+/-- the write and what follows it, on the table `t` as it is when the write lands -/
+def uspPost (gc : String) (t : Table) (w2 : W) (min : Entry) (e : Entry) (now : Int) : Table × SOut :=
+  if w2.tick.2 then (t, .err .storage)
+  else if e.id = min.id then uspReload gc (tput t e) w2.tick.1 now
+  else okOut (tput t e) min now
+
 /-- RemoveServiceGCSafePoint, as the HTTP API calls it -/
 def del (gc : String) (t : Table) (svc : String) : Table × Option SErr :=
   if svc = gc then (t, some .removeGcWorker)
